@@ -6,4 +6,5 @@ import NdnProofs.Props.C13
 #print axioms Ndn.C13.match_stable
 #print axioms Ndn.C13.check_terminates
 #print axioms Ndn.C13.match_no_exception
+#print axioms Ndn.C13.sign_cycle_rejected
 #print axioms Ndn.C13.compile_sane_partial
